@@ -128,7 +128,7 @@ class TlcResult:
         self.postcondition_failed = False
 
 
-_TAG_RE = re.compile(r'^"([A-Z_]+) (.*)"$')
+_TAG_RE = re.compile(r'^"([A-Z][A-Z_0-9]*) (.*)"$')
 
 
 def tlc(module, cfg=None, pid="misc", workers=4, timeout=1800, env=None, simulate=None, depth=None,
